@@ -53,6 +53,8 @@ THEOREMS = [
     "Klong.C03.cond_unselected_silent",
     "Klong.C03.truthy_spec",
     "Klong.C03.call_is_substitution",
+    "Klong.C03.call_is_substitution_var",
+    "Klong.C03.call_is_substitution_at",
 ]
 
 FUEL = 400
@@ -212,16 +214,20 @@ class Real:
 
 
 _PARSER = None
+_DRV = None
 
 
-def parse_wire(text):
-    """the real parser's AST of a program text, as one `prog` node"""
+def _parse(text):
     global _PARSER
     if _PARSER is None:
         from klongpy import KlongInterpreter
         _PARSER = KlongInterpreter()
-    _, arr = _PARSER.prog(text)
-    return "(prog " + " ".join(ast_wire(e) for e in arr) + ")"
+    return _PARSER.prog(text)[1]
+
+
+def parse_wire(text):
+    """the real parser's AST of a program text, as one `prog` node"""
+    return "(prog " + " ".join(ast_wire(e) for e in _parse(text)) + ")"
 
 
 class Model:
@@ -384,19 +390,19 @@ def py_truth(v):
     return True
 
 
-def gen_int(rng, nparams, depth, funs, log=False, rec=None, leafy=0.3):
+def gen_int(rng, nparams, depth, funs, log=False, rec=None, leafy=0.3, ops="+-+-*", globs=True):
     """integer-valued expression over the first `nparams` parameters, the integer globals and `funs`"""
     r = rng.random()
     if depth <= 0 or r < leafy:
         c = rng.random()
         if nparams and c < 0.55:
             return ["p", PARAMS[rng.randrange(nparams)]]
-        if c < 0.8:
+        if c < 0.8 or not globs:
             return ["int", rng.choice(SMALL)]
         return ["g", rng.choice(GLOBALS)[0]]
-    sub = lambda: gen_int(rng, nparams, depth - 1, funs, log, rec, leafy)  # noqa: E731
+    sub = lambda: gen_int(rng, nparams, depth - 1, funs, log, rec, leafy, ops, globs)  # noqa: E731
     if r < 0.55:
-        return ["op2", rng.choice("+-+-*"), sub(), sub()]
+        return ["op2", rng.choice(ops), sub(), sub()]
     if r < 0.62:
         return ["op2", "=", sub(), sub()]
     if r < 0.72:
@@ -481,14 +487,20 @@ def case_subst(rng):
     pre = []
     locals_ = []
     if mode == "int" and rng.random() < 0.35:
-        # a multi-statement body: assignments to existing globals (deliberate) and/or declared locals
+        # a multi-statement body: assignments to existing globals (deliberate) and/or declared locals.
+        # Assigned values are sums of parameters and small integers and the products stay shallow, so
+        # that nothing can reach the int64 range (numpy integers wrap, the substituted text has Python ints)
         stm = []
+        body = gen_int(rng, n, 2, FUNS, log=use_log)
         if rng.random() < 0.5:
             locals_ = ["t"]
-            stm.append(["asg", "t", gen_int(rng, n, 2, FUNS)])
+            stm.append(["asg", "t", gen_int(rng, n, 2, [], ops="+-", globs=False)])
             body = ["op2", "+", body, ["g", "t"]]
         if rng.random() < 0.6:
-            stm.append(["asg", rng.choice(["ga", "gb"]), gen_int(rng, n, 2, FUNS)])
+            stm.append(["asg", rng.choice(["ga", "gb"]), gen_int(rng, n, 2, [], ops="+-", globs=False)])
+        if not uses_all(["seq", stm + [body]], n):
+            for pp in PARAMS[:n]:
+                body = ["op2", "+", body, ["p", pp]]
         body = ["seq", stm + [body]] if stm else body
     decl = f"[{' '.join(locals_)}];" if locals_ else ""
     ftext = "{" + decl + render(body) + "}"
@@ -638,7 +650,9 @@ def case_cond(rng):
     def test_expr(v):
         """a way of writing the test value: literal, global, via a variable defined from outside"""
         c = rng.random()
-        if isinstance(v, dict) or c < 0.5:
+        if isinstance(v, dict):
+            c = 0.2 if c < 0.3 else 0.9      # the literal :{} is a call of a copying lambda: outside the model
+        if c < 0.5:
             return lit_text(v), []
         if c < 0.8:
             return "tv", [f"tv::{lit_text(v)}"]
@@ -852,6 +866,12 @@ def case_locals(rng):
 
 # --------------------------------------------------------------------------- oracles
 
+def _big_int(s):
+    """an integer of more than 9 digits occurs: one more multiplication could leave the int64 range"""
+    import re
+    return any(len(x) > 9 for x in re.findall(r"\(i -?(\d+)\)", s))
+
+
 def _ok_prefix(obs, upto):
     return all(o["out"].startswith("ok") for o in obs[:upto])
 
@@ -916,11 +936,25 @@ def oracle_subst(ctx, case, obs):
     m = case["meta"]
     forms = {f["idx"]: f for f in m["forms"]}
     first = min(forms)
+    body, n = m["body"], m["n"]
     if not _ok_prefix(obs, first):
-        ctx.bump("gen-reject")
+        bad = next(o for o in obs[:first] if not o["out"].startswith("ok"))
+        if bad["text"].startswith("f::"):
+            # the function could not even be defined although its body, with values for x y z, is a program
+            f0 = forms[first]
+            if f0["form"] in ("direct", "literal", "var", "at"):
+                tw = Real()
+                for t in case["stmts"][:first]:
+                    if not t.startswith("f::"):
+                        tw.run(t)
+                tout, _ = tw.run(render(gsubst(body, dict(zip(PARAMS, f0["args"])))))
+                if tout.startswith("ok"):
+                    ctx.oracle_fail("subst:definition-rejected", dict(case=_js(case), text=bad["text"]), tout, bad["out"],
+                                    "the function literal is rejected although its substituted body evaluates")
+                    return
+        ctx.bump("gen-reject:" + case["kind"])
         return
     twin = Real()
-    body, n = m["body"], m["n"]
     locs = set(m["locals"])
     for i, text in enumerate(case["stmts"]):
         o = obs[i]
@@ -931,6 +965,7 @@ def oracle_subst(ctx, case, obs):
         frame_check(ctx, case, o, ["ga", "gb"] if m["seq"] else [], "call form " + f["form"])
         # the reference: the body with the argument values written in place of x, y, z
         events = []
+        big = False
         try:
             if f["form"] in ("direct", "literal", "var", "at"):
                 env = dict(zip(PARAMS, f["args"]))
@@ -941,6 +976,7 @@ def oracle_subst(ctx, case, obs):
                 tout = None
                 for a in f["args"]:
                     r, _ = twin.run(render(gsubst(body, {"x": a})))
+                    big |= _big_int(r)
                     events += list(twin.events)
                     if not r.startswith("ok"):
                         tout = r
@@ -953,6 +989,7 @@ def oracle_subst(ctx, case, obs):
                 tout = None
                 for a in f["args"][1:]:
                     r, _ = twin.run(render(gsubst(body, {"x": acc, "y": a})))
+                    big |= _big_int(r)
                     events += list(twin.events)
                     if not r.startswith("ok"):
                         tout = r
@@ -962,6 +999,24 @@ def oracle_subst(ctx, case, obs):
                     tout = "ok " + _wire_of(acc)
         except Unsupported:
             ctx.bump("oracle-skip")
+            return
+        if (_DRV is not None and f["form"] in ("direct", "literal", "var", "at") and not locs
+                and all(isinstance(a, list) or a >= 0 for a in f["args"])):
+            # the reference semantics of the model (Klong.C03.subst) against the textual substitution
+            try:
+                fn = _parse("{" + render(body) + "}")[0]
+                want = _parse(render(gsubst(body, dict(zip(PARAMS, f["args"])))))
+                want = ast_wire(want[0]) if len(want) == 1 else ast_wire(want)
+                line = "subst " + ast_wire(fn.a) + " " + " ".join(_wire_of(a) for a in f["args"])
+                got = _DRV.ask(line)
+                if got != "ok " + want:
+                    ctx.mismatch("Klong.C03.subst vs textual substitution", dict(case=_js(case), form=f), got, "ok " + want)
+                else:
+                    ctx.bump("tie:subst")
+            except Unsupported:
+                pass
+        if big or _big_int(o["out"]) or _big_int(o["digest"]) or _big_int(tout) or _big_int(twin.digest()):
+            ctx.bump("oracle-skip")      # numpy integers wrap, Python integers do not: outside the universe
             return
         ev_p = [ast_wire(e) for e in o["events"]]
         ev_t = [ast_wire(e) for e in events]
@@ -986,10 +1041,13 @@ def oracle_subst(ctx, case, obs):
 def oracle_rec(ctx, case, obs):
     m = case["meta"]
     if not _ok_prefix(obs, m["ndefs"]):
-        ctx.bump("gen-reject")
+        ctx.bump("gen-reject:" + case["kind"])
         return
     for i, j in m["pairs"]:
         a, b = obs[i], obs[j]
+        if _big_int(a["out"]) or _big_int(b["out"]):
+            ctx.bump("oracle-skip")
+            return
         frame_check(ctx, case, a, [], "recursion through .f")
         key = "dotf:locals" if m["locals"] else "subst:dotf"
         if a["out"] != b["out"] or [ast_wire(e) for e in a["events"]] != [ast_wire(e) for e in b["events"]]:
@@ -1002,7 +1060,7 @@ def oracle_rec(ctx, case, obs):
 def oracle_proj(ctx, case, obs):
     m = case["meta"]
     if not _ok_prefix(obs, m["direct"]):
-        ctx.bump("gen-reject")
+        ctx.bump("gen-reject:" + case["kind"])
         return
     d, c = obs[m["direct"]], obs[m["call"]]
     # the direct call itself against the substituted body
@@ -1011,6 +1069,9 @@ def oracle_proj(ctx, case, obs):
         twin.run(text)
     tout, _ = twin.run(render(gsubst(m["body"], dict(zip(PARAMS, m["args"])))))
     cj = dict(case=_js(case))
+    if any(_big_int(o["out"]) for o in obs) or _big_int(tout):
+        ctx.bump("oracle-skip")
+        return
     if d["out"] != tout:
         ctx.oracle_fail("subst:direct", cj, tout, d["out"], "direct call differs from the substituted body")
         return
@@ -1037,7 +1098,7 @@ def oracle_cond(ctx, case, obs):
     for e in m["expects"]:
         o = obs[e["i"]]
         if not _ok_prefix(obs, e["i"]):
-            ctx.bump("gen-reject")
+            ctx.bump("gen-reject:" + case["kind"])
             return
         want = "ok " + _wire_of(e["out"])
         ev = [ast_wire(x) for x in o["events"]]
@@ -1061,10 +1122,10 @@ def oracle_cond(ctx, case, obs):
 def oracle_frame(ctx, case, obs):
     m = case["meta"]
     if not _ok_prefix(obs, m["ndefs"]):
-        ctx.bump("gen-reject")
+        ctx.bump("gen-reject:" + case["kind"])
         return
     what = f"depth {m['depth']}, failing level {m['fail_level']}, position {m['pos']}, styles {m['styles']}"
-    if any(o["out"] == "err fuel" for o in obs):
+    if any(o["out"] == "err fuel" or _big_int(o["digest"]) for o in obs):
         ctx.bump("oracle-skip")      # Python's recursion limit is not a property of the program
         return
     good = True
@@ -1117,7 +1178,7 @@ def oracle_locals(ctx, case, obs):
             return
     for i in m["calls"]:
         if not _ok_prefix(obs, i):
-            ctx.bump("gen-reject")
+            ctx.bump("gen-reject:" + case["kind"])
             return
         if not frame_check(ctx, case, obs[i], m["may"], "declared locals"):
             return
@@ -1133,11 +1194,6 @@ ORACLES = dict(subst=oracle_subst, rec=oracle_rec, proj=oracle_proj, cond=oracle
 
 
 # --------------------------------------------------------------------------- one case
-
-def _big_int(s):
-    import re
-    return any(len(x) > 15 for x in re.findall(r"\d+", s))
-
 
 def run_case(ctx, drv, case):
     """runs every statement on the real interpreter and on the model, compares, then evaluates the
@@ -1166,6 +1222,9 @@ def run_case(ctx, drv, case):
             if (mout is None or mout.startswith("err unmodelled") or "?" in out or "?" in dig
                     or _big_int(out) or _big_int(dig)):
                 ctx.bump("outside-model")
+                sm = ctx.extra.setdefault("outside_model_samples", [])
+                if len(sm) < 12:
+                    sm.append(dict(text=text, model=str(mout)[:80], impl=out[:80]))
                 tie_ok = False       # the states may have diverged: stop comparing this case
             elif mout.startswith("parse "):
                 if not out.startswith("err"):
@@ -1316,10 +1375,39 @@ HAND = [
      ':["a";log(1);log(2)]', ":[[0];log(1);log(2)]", ":[0c0;log(1);log(2)]", ":[:{};log(1);log(2)]",
      ":[log(0);log(1):|log(3);log(4);log(5)]"],
     ["f::{log(x)+log(y)}", "f(1;2)", "f(log(3);log(4))", "boom(1)", "boom()", "boom", "{x}", "f::{1}", "f()", "f", ".f", "g(1)"],
-    ["{[[a b] [c d]]}()", "{:[[a];1;2]}()", "a"],
+    ["{[[a b] [c d]]}()", "{:[[a];1;2]}()", "a", "f::{[a;b];a::1;b::2;a+b}", "f()", "a", "b"],
+    ["g::{:[:[y;y;y];1;2]}", "g(0;[1])", "a::1", "b::2", "c::3", "f::{:[a;b;c];a}", "f()",
+     "h::{:[:[x;y;[5 -3 2 7]];1;2]}", "h(1;0)", "h(0;0)"],
     ["f::{x-y}", "f(1;2;3)", "f(1)", "f()", "g::f(1)", "g(2)", "f(;)", "h::f(;)", "h(1;2)", "h(1)", "{x}(;)"],
     ["a::5", "f::{[a];a}", "f()", "f::{[x];x}", "f(3)", "f::{[a b];a::1;b::2;a+b}", "f()", "a", "b"],
 ]
+
+
+WITNESSES = [
+    ("proj:multi-step", ["f::{(100*x)+(10*y)+z}", "g::f(;;3)", "h::g(;2)", "h(1)"], {3: 123}),
+    ("proj:multi-step", ["f::{(100*x)+(10*y)+z}", "g::f(;2;)", "h::g(;3)", "h(1)"], {3: 123}),
+    ("proj:multi-step", ["f::{(100*x)+(10*y)+z}", "g::f(1;;)", "h::g(;3)", "h(2)"], {3: 123}),
+    ("proj:list-arg", ["f::{x,y}", "g::f(;[1 2])", "g(3)"], {2: [3, 1, 2]}),
+    ("dotf:locals", ["f::{[a];a::x;:[x;.f(x-1);0];a}", "f(3)"], {1: 3}),
+    ("cond:monad-operand", ["-:[1;5;6]", "#:[0;[1];[2 2]]", "cf::{-:[x;y;z]}", "cf(0;5;6)"], {0: -5, 1: 2, 3: -6}),
+    ("subst:definition-rejected", ["dbl::{x*2}", "g::{x,y}", "f::{dbl(:[x;5;6])}", "f(0)", "h::{g([1 2];x)}", "h(3)"],
+     {3: 12, 5: [1, 2, 3]}),
+    ("locals:conditional-body", ["g::{:[:[y;y;y];1;2]}", "g(0;[1])", "a::1", "b::2", "c::3", "f::{:[a;b;c];a}", "f()",
+                                 "h::{:[:[x;y;[5 -3 2 7]];1;2]}", "h(1;0)"], {1: 1, 6: 1, 8: 2}),
+]
+
+
+def oracle_witness(ctx, case, obs):
+    for k, v in case["meta"]["expect"].items():
+        o = obs[int(k)]
+        if o["out"] != "ok " + _wire_of(v):
+            ctx.oracle_fail(case["meta"]["key"], dict(case=_js(case), text=o["text"]), v, o["out"],
+                            "witness of a repaired defect fails again")
+            return
+    ctx.bump("oracle:witness")
+
+
+ORACLES["witness"] = oracle_witness
 
 
 def all_partitions():
@@ -1347,21 +1435,25 @@ def run(ctx):
         "integers stay below 2^53 (cases whose results exceed 15 digits are not compared); reals only as data",
         "function values as arguments (higher-order calls) are outside the value universe of the property",
     ]
+    global _DRV
+    _DRV = drv
     try:
         for st in HAND:
             run_case(ctx, drv, dict(kind="hand", stmts=st))
+        for key, st, exp in WITNESSES:
+            run_case(ctx, drv, dict(kind="witness", stmts=st, meta=dict(key=key, expect={str(k): v for k, v in exp.items()})))
         cdir = common.CORPUS / "C03"
         if cdir.exists():
             for p in sorted(cdir.glob("*.json")):
                 c = json.loads(p.read_text())
                 run_case(ctx, drv, c)
         parts = all_partitions()
-        reps = 2 if quick else 12
+        reps = 3 if quick else 40
         for _ in range(reps):
             for n, p in parts:
                 for variant in ("named", "literal", "adverb"):
                     run_case(ctx, drv, case_proj(rng, n, p, variant))
-        n_subst, n_rec, n_cond, n_loc = (260, 60, 120, 120) if quick else (4000, 800, 1500, 1500)
+        n_subst, n_rec, n_cond, n_loc = (700, 150, 300, 300) if quick else (14000, 3000, 6000, 6000)
         for _ in range(n_subst):
             run_case(ctx, drv, case_subst(rng))
         for _ in range(n_rec):
@@ -1372,24 +1464,27 @@ def run(ctx):
             run_case(ctx, drv, case_locals(rng))
         # failing sub-expression: every (depth, failing level, position), call styles sampled
         combos = [(d, l, p) for d in (1, 2, 3) for l in range(1, d + 1) for p in FRAME_POS]
-        for _ in range(1 if quick else 12):
+        for _ in range(2 if quick else 40):
             for d, l, p in combos:
                 run_case(ctx, drv, case_frame(rng, d, l, p))
-        for _ in range(40 if quick else 600):
+        for _ in range(100 if quick else 2000):
             run_case(ctx, drv, case_frame(rng))
-        for _ in range(150 if quick else 2500):
+        for _ in range(300 if quick else 6000):
             strict = rng.choice([0, 0, 1, 2])
             nsys = rng.choice([2, 2, 2, 1, 3])
             run_ctx_sequence(ctx, drv, gen_ctx_ops(rng, rng.randrange(3, 25)), strict, nsys)
         ctx.extra["in_model_fraction"] = round(
             ctx.hist.get("tie-cases", 0) / max(1, sum(v for k, v in ctx.hist.items() if k.startswith("kind:"))), 4)
     finally:
+        _DRV = None
         if drv:
             drv.close()
 
 
 def replay(ctx, case):
+    global _DRV
     drv = Driver("c03") if getattr(ctx, "driver_ok", True) else None
+    _DRV = drv
     c = case.get("case", case)
     c = c.get("case", c)
     try:
